@@ -186,6 +186,39 @@ func runC18(c *fw.Ctx) {
 			}
 		}
 	}
+	// portion literals with a zero numerator and / or a zero denominator, at every position a portion
+	// (or any value) can be written — the texts a user passes through while typing 1/05 or 0/05
+	portionTexts := []string{"0/0", "1/0", "00/0", "0/00", "0 / 0", "0/ 0", "0 /0", "7/000", "0/3", "0/1", "0%", "0.0%", "00%", "100%", "1/1", "3/2", "150%",
+		"100000000000000000000/0", "0/100000000000000000000", "0/0000000000000000000000", "000/000"}
+	portionFrames := []string{
+		"send [USD 10] (source = { %s from @a remaining from @b } destination = @c)",
+		"send [USD 10] (source = { 1/2 from @a %s from @b remaining from @c } destination = @d)",
+		"send [USD 10] (source = @a destination = { %s to @b remaining to @c })",
+		"send [USD 10] (source = @a destination = { %s to @b remaining kept })",
+		"send [USD 10] (source = @a destination = { 1/2 to @b %s to @c })",
+		"send [USD 10] (source = @a destination = { %s to @b %s to @c })",
+		"send [USD *] (source = { %s from @a remaining from @b } destination = @c)",
+		"send [USD 10] (source = { max [USD 5] from { %s from @a remaining from @b } @c } destination = @d)",
+		"send [USD 10] (source = @a destination = { max [USD 5] to { %s to @b remaining to @c } remaining to @d })",
+		"send [USD 10] (source = @a destination = { %s to { %s to @b remaining kept } remaining to @c })",
+		"set_tx_meta(\"k\", %s)", "set_account_meta(@a, \"k\", %s)", "send %s (source = @a destination = @b)",
+		"send [USD %s] (source = @a destination = @b)", "send [USD 10] (source = max %s from @a destination = @b)",
+		"send [USD 10] (source = @a allowing overdraft up to %s destination = @b)", "save %s from @a",
+		"vars { portion $p = %s } send [USD 1] (source = @a destination = { $p to @b remaining kept })",
+		"vars { portion $p } send [USD 1] (source = { $p from @a %s from @b } destination = @c)",
+		"send [USD 10] (source = @a destination = { %s + %s to @b remaining kept })", "set_tx_meta(\"k\", %s - %s)",
+	}
+	for fi, frame := range portionFrames {
+		for ti, t := range portionTexts {
+			if !c.Want(500+fi*len(portionTexts)+ti, "portion/"+itoa(fi)+"/"+itoa(ti)) {
+				continue
+			}
+			c.Count("portion_position_texts", 1)
+			if !checkEditorText(c, strings.ReplaceAll(frame, "%s", t), "portion-position") {
+				return
+			}
+		}
+	}
 	n := c.N(300, 5000)
 	for i := 0; i < n; i++ {
 		id := "syn/" + itoa(i)
